@@ -76,6 +76,13 @@ func (l *evlog) snapshot() []Ev {
 type world struct {
 	mods [2]*modules.Module
 	cur  atomic.Pointer[histRun]
+
+	// sentinel: a harness task outside all histories (MaxDelay 0: never in the
+	// schedule). One pass of it through the normal queue is a barrier for the queue
+	// handler: when it has run, the handler has finished processing everything it had
+	// popped before.
+	sentinel     *modules.Task
+	sentinelRuns atomic.Int64
 }
 
 type taskRun struct {
@@ -98,6 +105,7 @@ type park struct {
 }
 
 type histRun struct {
+	w       *world
 	h       *Hist
 	log     *evlog
 	tasks   []*taskRun
@@ -118,6 +126,9 @@ type histRun struct {
 	// submission whose call precedes it, so this is a violation on any schedule), or
 	// when the logical execution/event cap of the history is exceeded. The history is
 	// then stopped (no quiescence needed) and decided on the log recorded so far.
+	noStructure bool
+	q0, p0, s0  int // list lengths when the history started (leftovers of earlier histories)
+
 	abort    atomic.Bool
 	abortMu  sync.Mutex
 	abortWhy string
@@ -170,6 +181,10 @@ func startWorld() (*world, error) {
 		return nil, err
 	}
 	log.SetLogLevel(log.CriticalLevel)
+	w.sentinel = w.mods[0].NewTask("verif-sentinel", func(context.Context, *modules.Task) error {
+		w.sentinelRuns.Add(1)
+		return nil
+	}).MaxDelay(0)
 	for i, p := range []string{hkCleared, hkDefer, hkPrelock, hkPrerun} {
 		i, p := i, p
 		vhook.Set(p, func(point, subject string) { w.onHook(i, p, subject) })
@@ -353,8 +368,9 @@ func (tr *taskRun) fn(ctx context.Context, _ *modules.Task) error {
 var histCounter atomic.Int64
 
 func (w *world) newHist(h *Hist) *histRun {
-	hr := &histRun{h: h, log: &evlog{}, byName: map[string]*taskRun{}, parks: map[string]*park{},
+	hr := &histRun{w: w, h: h, log: &evlog{}, byName: map[string]*taskRun{}, parks: map[string]*park{},
 		rnd: vlib.NewRand(h.Seed, "hook", 0)}
+	hr.q0, hr.p0, hr.s0 = modules.VerifTaskLists()
 	n := histCounter.Add(1)
 	for i, ts := range h.Tasks {
 		tr := &taskRun{idx: i, name: fmt.Sprintf("h%d.%d.t%d", h.ID, n, i), spec: ts, hr: hr}
@@ -409,6 +425,102 @@ func (hr *histRun) idle() bool {
 	return true
 }
 
+// reading is one observation of the bookkeeping: what every task of the history claims
+// (under its own lock) and how long the three lists are (under their locks).
+type reading struct {
+	states     string // all per-task tuples
+	busy       bool   // some task executing
+	cq, cp, cs int    // tasks claiming membership of the queue / prioritized queue / schedule
+	q, p, s    int    // list lengths
+	who        [3][]int
+}
+
+func (hr *histRun) read() reading {
+	var r reading
+	var sb strings.Builder
+	for _, tr := range hr.tasks {
+		ex, ca, qd, pr, sc := tr.t.VerifTaskState()
+		act := tr.active.Load() != 0
+		fmt.Fprintf(&sb, "%v%v%v%v%v%v;", ex, ca, qd, pr, sc, act)
+		if ex || act {
+			r.busy = true
+		}
+		if qd {
+			r.cq++
+			r.who[0] = append(r.who[0], tr.idx)
+		}
+		if pr {
+			r.cp++
+			r.who[1] = append(r.who[1], tr.idx)
+		}
+		if sc {
+			r.cs++
+			r.who[2] = append(r.who[2], tr.idx)
+		}
+	}
+	r.q, r.p, r.s = modules.VerifTaskLists()
+	r.states = fmt.Sprintf("%s|%d,%d,%d", sb.String(), r.q, r.p, r.s)
+	return r
+}
+
+func (r reading) mismatch() bool { return !r.busy && (r.cq != r.q || r.cp != r.p || r.cs != r.s) }
+
+// barrier sends the sentinel once through the queue.
+func (hr *histRun) barrier() bool {
+	n := hr.w.sentinelRuns.Load()
+	hr.w.sentinel.Queue()
+	return waitForAbort(&hr.abort, 5*time.Second, func() bool { return hr.w.sentinelRuns.Load() > n })
+}
+
+// checkStructure decides the list-membership invariant at an idle point: no client call
+// in flight (callers guarantee it), nothing executing, and the complete bookkeeping
+// (every task's state tuple and the three list lengths) identical in three readings that
+// are separated by two complete passes of the sentinel through the queue, with no event
+// recorded in between. On the unchanged code a task's element pointer is non-nil exactly
+// while the element is in its list, except between the queue handler's pop and its
+// runWithLocking on that task - and that window is closed by the barrier (the handler
+// pops the sentinel only after it finished with everything popped before, and finishing
+// changes the task's tuple). So a persisting difference between the number of tasks that
+// claim membership and the length of the list is a corrupted bookkeeping, on any
+// schedule and without waiting for any max delay. All tasks in the lists belong to the
+// running history (lists that were not empty when the history started are skipped).
+func (hr *histRun) checkStructure() bool {
+	if hr.noStructure {
+		return false
+	}
+	seq := hr.log.now()
+	r0 := hr.read()
+	if !r0.mismatch() {
+		return false
+	}
+	for i := 0; i < 2; i++ {
+		if !hr.barrier() {
+			// the queue does not move although nothing executes (a stalled slot
+			// releaser on trees without the watcher fix): no structural verdict
+			hr.noStructure = true
+			return false
+		}
+		if r := hr.read(); r.states != r0.states || hr.log.now() != seq {
+			return false
+		}
+	}
+	found := false
+	for li, name := range []string{"queue", "prioritized", "schedule"} {
+		claims := []int{r0.cq, r0.cp, r0.cs}[li]
+		length := []int{r0.q, r0.p, r0.s}[li]
+		if claims == length || []int{hr.q0, hr.p0, hr.s0}[li] != 0 {
+			continue
+		}
+		found = true
+		hr.log.rec(Ev{K: "mark", Op: "structure:" + name, Task: -1,
+			C: fmt.Sprintf("%d task(s) of the history %v claim to be in the %s list, but the list holds %d element(s)", claims, r0.who[li], name, length)})
+	}
+	if found {
+		hr.setAbort(false, "list-membership bookkeeping is corrupted at an idle point")
+	}
+	return found
+}
+
 func (hr *histRun) anyExecuting() bool {
 	for _, tr := range hr.tasks {
 		if ex, _, _, _, _ := tr.t.VerifTaskState(); ex || tr.active.Load() != 0 {
@@ -428,7 +540,7 @@ func (hr *histRun) quiesce(limit time.Duration, supervise bool) bool {
 	dl := time.Now().Add(limit)
 	lastSeq := hr.log.now()
 	lastChange := time.Now()
-	var idleSeq uint64
+	var idleSeq, prevPoll uint64
 	idleSeen := false
 	round := 0
 	for i := 0; ; i++ {
@@ -446,7 +558,13 @@ func (hr *histRun) quiesce(limit time.Duration, supervise bool) bool {
 			idleSeen, idleSeq = true, s
 		} else {
 			idleSeen = false
+			// not idle, but nothing moved since the last poll: is the bookkeeping itself
+			// inconsistent (then quiescence can never be reached or means nothing)?
+			if s == prevPoll && i > 20 && i%8 == 0 && hr.checkStructure() {
+				return false
+			}
 		}
+		prevPoll = s
 		if time.Now().After(dl) {
 			return false
 		}
@@ -533,6 +651,7 @@ func (w *world) run(h *Hist) *histResult {
 	// cleanup (not part of the history): cancel everything, let the handlers drain
 	for _, tr := range hr.tasks {
 		tr.t.Cancel()
+		tr.t.Schedule(time.Time{}) // takes the cancelled task out of all lists right away
 		if tr.block != nil {
 			select {
 			case <-tr.block:
@@ -550,7 +669,10 @@ func (w *world) run(h *Hist) *histResult {
 		}
 	}
 	hr.pmu.Unlock()
-	waitFor(20*time.Second, hr.idle)
+	waitFor(20*time.Second, func() bool {
+		q, p, s := modules.VerifTaskLists()
+		return q+p+s == 0 && !hr.anyExecuting()
+	})
 	w.cur.Store(nil)
 	why, capped := hr.aborted()
 	return &histResult{Hist: h, Events: evs, Quiescent: quiet && why == "", Failed: hr.failed, Notes: hr.notes, SupCancel: hr.supN,
